@@ -17,7 +17,7 @@
 (* TH is THRESHOLD_SMALL_EXP (38 on 64-bit words), a parameter here.        *)
 (* The model is of the code as it is: the unrounded branches violate the    *)
 (* definition when the significand has more than p + 1 digits; these are    *)
-(* the open findings F05/C08 (SmallPos, SmallNeg assertion) and F81 (Same,  *)
+(* the open findings F05/C08 (SmallPos, SmallNeg assertion) and C08.N2 (Same,  *)
 (* PowDown), mirrored by the Known predicates.  `Strict` is the definition  *)
 (* alone: TLC must refute it (the defects are found by model checking).     *)
 (***************************************************************************)
@@ -36,7 +36,7 @@ Tq(a, b) == Sgn(a) * Sgn(b) * (Abs(a) \div Abs(b))
 Tr(a, b) == a - b * Tq(a, b)
 Cmp3(a, b) == IF a < b THEN -1 ELSE IF a > b THEN 1 ELSE 0
 \* n with big = small^n (n >= 1), 0 if big is not a power of small   (utils::ilog_exact)
-PowerOf(big, small) == LET ns == {n \in 1..8 : Pw(small, n) = big} IN IF ns = {} THEN 0 ELSE CHOOSE n \in ns : TRUE
+PowerOf(big, small) == LET ns == {n \in 1..5 : Pw(small, n) = big} IN IF ns = {} THEN 0 ELSE CHOOSE n \in ns : TRUE
 
 \* --- round.rs: Round::round_low_part, per mode; low_sign in {-1, 1}; half = cmp(2|low|, unit)
 RLP(mode, integer, lowsign, half) ==
@@ -143,8 +143,8 @@ WhyNot == IF out.k = "abstract" THEN ""
           ELSE RoundedWhy(T, p, mode, XQ, F(IFromNative(out.sig), out.exp), out.flag)
 KnownF05 == \/ branch = "SmallPos" /\ WhyNot = "more-than-p+1-digits"
             \/ branch = "SmallNegAssert"
-KnownF81 == branch \in {"Same", "PowDown"} /\ WhyNot = "more-than-p+1-digits"
-Conforms == pc = "done" => (WhyNot = "" \/ KnownF05 \/ KnownF81)
+KnownN2 == branch \in {"Same", "PowDown"} /\ WhyNot = "more-than-p+1-digits"
+Conforms == pc = "done" => (WhyNot = "" \/ KnownF05 \/ KnownN2)
 Strict == pc = "done" => WhyNot = ""
 \* the branches partition the picked states
 OneBranch == pc = "run" =>
